@@ -1065,6 +1065,7 @@ where
 
             // Check on plugin results.
             if let Some(PluginOutput::Deny(error)) = plugin_output {
+                self.forget_buffered_parses();
                 self.reset_buffered_state();
                 error_response(&mut self.write, &error).await?;
                 plugin_output = None;
@@ -1411,6 +1412,7 @@ where
                             Some(PluginOutput::Deny(error)) => {
                                 error_response(&mut self.write, &error).await?;
                                 plugin_output = None;
+                                self.forget_buffered_parses();
                                 self.reset_buffered_state();
                                 continue;
                             }
@@ -2030,6 +2032,21 @@ where
     fn forget_closed_statement(&mut self, close: &Close) {
         if self.prepared_statements_enabled && close.is_prepared_statement() && !close.anonymous() {
             self.prepared_statements.remove(&close.name);
+        }
+    }
+
+    /// The statements prepared by the buffered batch never reached a server (a plugin denied
+    /// the batch): forget them, so a later Bind by the same name cannot run them unchecked.
+    fn forget_buffered_parses(&mut self) {
+        for data in &self.extended_protocol_data_buffer {
+            if let ExtendedProtocolData::Parse {
+                metadata: Some((parse, _)),
+                ..
+            } = data
+            {
+                self.prepared_statements
+                    .retain(|_, (known, _)| known.name != parse.name);
+            }
         }
     }
 
